@@ -402,6 +402,10 @@ def check_C09(ctx):
                          'injected in batches of 20 at 3 instants of a run that is paired with its noise-free twin; a violating batch is re-run one packet at a time; '
                          'non-trivial/distinct = junk class label (variant/form/damage)')
     ctx.samples = ctx.samples[:2] + [{'scenario': scen[1] if len(scen) > 1 else scen[0]}]
+    # below the simulated wire: what the REAL capture handle hands the parser (padded minimum-size frames, total length 0, large unrelated ICMP)
+    rule = ctx.extra['rule']
+    lab_family(ctx, 'C09', 'C09')
+    ctx.extra['rule'] = rule + '; plus KernelPath!C09Lab: padded 60-byte frames with IPv4 total length 0 and large unrelated ICMP arriving on the real capture path while a run is in progress'
     vt.write_evidence(ctx, 'exploration', ctx_rule(ctx), exhaustive=False)
 
 def check_C10(ctx):
@@ -767,6 +771,27 @@ def check_C14(ctx):
     ctx.assumptions.append('the Go race detector is the access-level trace checker (trusted, no false positives); TLA+ supplies the schedule classes and the design-level vector-clock model')
     vt.write_evidence(ctx, 'exploration', ctx.extra['rule'], exhaustive=False, trusted=['Go race detector', 'TLC'])
 
+# frames of exactly 60 bytes (the Ethernet minimum, padded) whose IPv4 total-length field is 0 (the segmentation-offload convention
+# decoders accept), ICMP protocol so that they pass the capture filters: sent by router 1 straight to the tracer's interface
+TSO0 = '''
+import socket, struct, sys, time
+dev, dst_mac, src_mac, src_ip, dst_ip = sys.argv[1:6]
+s = socket.socket(socket.AF_PACKET, socket.SOCK_RAW)
+s.bind((dev, 0))
+mac = lambda m: bytes(int(x, 16) for x in m.split(':'))
+ip = bytearray(struct.pack('!BBHHHBBH4s4s', 0x45, 0, 0, 0x4242, 0, 64, 1, 0, socket.inet_aton(src_ip), socket.inet_aton(dst_ip)))
+t = sum(struct.unpack('!10H', bytes(ip)))
+while t >> 16: t = (t & 0xffff) + (t >> 16)
+ip[10:12] = struct.pack('!H', ~t & 0xffff)
+icmp = struct.pack('!BBHHH', 0, 0, 0xffff, 0, 0)
+frame = mac(dst_mac) + mac(src_mac) + b'\\x08\\x00' + bytes(ip) + icmp
+frame += bytes(60 - len(frame))
+end = time.time() + 30
+while time.time() < end:
+    s.send(frame)
+    time.sleep(0.02)
+'''
+
 BIGPING = '''
 import socket, struct, sys, time
 s = socket.socket(socket.AF_INET, socket.SOCK_RAW, socket.IPPROTO_ICMP)
@@ -889,6 +914,12 @@ def lab_run(ctx, s, prefix, cli_bin, runner_bin):
         else:
             cmd = ['ip', 'netns', 'exec', tracer, runner_bin + ('_v' if req.get('echo_base') else ''), json.dumps(req)]
         noise = None
+        if s.get('noise') == 'tso0':
+            r1 = prefix + 'n1'
+            m_tr = vt.sh(['ip', 'netns', 'exec', tracer, 'cat', '/sys/class/net/%sa0/address' % prefix]).stdout.strip()
+            m_r1 = vt.sh(['ip', 'netns', 'exec', r1, 'cat', '/sys/class/net/%sb0/address' % prefix]).stdout.strip()
+            noise = subprocess.Popen(['ip', 'netns', 'exec', r1, 'python3', '-c', TSO0, prefix + 'b0', m_tr, m_r1, '10.100.0.2', '10.100.0.1'], stdout=subprocess.DEVNULL, stderr=subprocess.DEVNULL)
+            _t.sleep(0.2)
         if s.get('noise') == 'bigping':
             # unrelated large ICMP: 1400-byte echo requests to the destination (and their replies) while the traceroute runs
             noise = subprocess.Popen(['ip', 'netns', 'exec', tracer, 'python3', '-c', BIGPING, req['hostname']], stdout=subprocess.DEVNULL, stderr=subprocess.DEVNULL)
